@@ -63,7 +63,8 @@ Ltac fin_leaf He HL :=
         [ left; reflexivity
         | right; left; split; reflexivity
         | right; right; left; split; [reflexivity|]; eexists; split; [reflexivity|]; split; [eassumption|reflexivity]
-        | right; right; right; split; reflexivity ] ].
+        | right; right; right; left; split; [reflexivity|]; eexists; split; [reflexivity|]; split; [eassumption|reflexivity]
+        | right; right; right; right; split; reflexivity ] ].
 
 Theorem decode_leaf_cases p msg d cs n :
   let e := fst (decode p (ELeaf msg d cs) n) in
@@ -74,6 +75,9 @@ Theorem decode_leaf_cases p msg d cs n :
     (dt_fam d = k_errno /\
      exists pe, dt_full d = Some (PlErrno pe) /\ str_eqb (en_arch pe) this_arch = false /\
                 e = Leaf (node_oid e) (LOpaqueErrno msg pe)) \/
+    (dt_fam d = k_opaqueErrno /\
+     exists pe, dt_full d = Some (PlErrno pe) /\ str_eqb (en_arch pe) this_arch = true /\
+                e = Leaf (node_oid e) (LErrno (en_errno pe))) \/
     (dt_full d = Some PlTestError /\ e = Leaf (node_oid e) LTestError))).
 Proof.
   intro e. assert (He : e = fst (decode p (ELeaf msg d cs) n)) by reflexivity. clearbody e.
@@ -94,6 +98,9 @@ Proof.
        try (destruct (decode p m n) as [em n2]); fin_leaf He HL|clear T].
     destruct (str_eqb fam k_unimpl) eqn:T; [apply str_eqb_eq in T; subst fam; fin_leaf He HL|clear T].
     destruct (str_eqb fam k_errno) eqn:T;
+      [apply str_eqb_eq in T; subst fam; destruct pl as [[s|l|l|m tys|pe|m|c|c|c m| |u raw]|];
+       try (destruct (str_eqb (en_arch pe) this_arch) eqn:A); fin_leaf He HL|clear T].
+    destruct (str_eqb fam k_opaqueErrno) eqn:T;
       [apply str_eqb_eq in T; subst fam; destruct pl as [[s|l|l|m tys|pe|m|c|c|c m| |u raw]|];
        try (destruct (str_eqb (en_arch pe) this_arch) eqn:A); fin_leaf He HL|clear T].
     destruct (str_eqb fam k_grpcStatus) eqn:T;
@@ -217,4 +224,31 @@ Lemma decode_foreign_errno_witness :
   e = Leaf 1%positive (LOpaqueErrno (lit "m") (mkerrno 1 (lit "plan9:arm") false false false false false)) /\
   is_opaque e = false /\ type_key e <> dt_fam d /\ dt_fam d <> k_barrierPrev /\
   dt_full d <> Some PlTestError.
+Proof. vm_compute. repeat split; discriminate. Qed.
+
+(* The decoder registered for errbase.OpaqueErrno (key [k_opaqueErrno]) behaves
+   like the one of syscall.Errno; the payload faults send it to the opaque leaf too. *)
+Lemma decode_leaf_faulty_payload_opaqueErrno p msg o ext rep pl n :
+  faulty_payload pl ->
+  exists i, fst (decode p (ELeaf msg (mkdet o k_opaqueErrno ext rep pl) []) n)
+            = OLeaf i msg (mkdet o k_opaqueErrno ext rep pl) [].
+Proof.
+  intros Hpl. cbn [decode]. exists n.
+  destruct Hpl as [->|(u & raw & ->)];
+    match goal with |- context [knows p ?k] => destruct (knows p k) end;
+    reflexivity.
+Qed.
+
+(* Why [decode_leaf_cases] has a disjunct for [k_opaqueErrno]: an OpaqueErrno that
+   comes back to its own platform is rebuilt as syscall.Errno, which is neither the
+   opaque leaf nor of the type the wire names, errbase.OpaqueErrno.  This is a
+   counter-example to the former statement of [decode_leaf_cases] (the one without
+   that disjunct): none of its four alternatives holds here. *)
+Lemma decode_native_opaque_errno_witness :
+  let pe := mkerrno 1 this_arch false false false false false in
+  let d := mkdet [] k_opaqueErrno [] [] (Some (PlErrno pe)) in
+  let e := fst (decode all_knowing (ELeaf (lit "m") d []) 1%positive) in
+  e = Leaf 1%positive (LErrno 1) /\
+  is_opaque e = false /\ type_key e <> dt_fam d /\ dt_fam d <> k_barrierPrev /\
+  dt_fam d <> k_errno /\ dt_full d <> Some PlTestError.
 Proof. vm_compute. repeat split; discriminate. Qed.
